@@ -354,7 +354,14 @@ class DocGen:
             ir.FloatEnc(r.choice([32, 64]), "IEEE754", False)
         return ir.PType(tname, kind, enc, r.choice([None, "s", "us"]), scale=r.choice([None, None, 0.001, 2.0, 1.0]),
                         offset=r.choice([None, None, 1000.0, -0.5, 0.0]), epoch=r.choice([None, "TAI", "2000-01-01T00:00:00", "GPS"]),
-                        offset_from=None)
+                        offset_from=self.offset_from(cx))
+
+    def offset_from(self, cx):
+        """ReferenceTime/OffsetFrom names another (numeric) parameter that occurs earlier in the packet; it is descriptive: the
+        decoded value of the time parameter itself does not depend on it"""
+        r = self.rng
+        earlier = [n for n, t in cx.avail[7:] if t.kind in ("integer", "float", "abstime", "reltime")]
+        return r.choice(earlier) if earlier and r.random() < 0.35 else None
 
     def add_param(self, cx: Ctxt, stem="P", kind=None, steering=False):
         name = self.fresh(stem)
